@@ -288,7 +288,13 @@ struct Extractor {
         }
       }
       json::Object o{{"k", "un"}, {"op", op}, {"e", norm(UO->getSubExpr(), false, fold)}};
-      if (UO->isIncrementDecrementOp()) o["ln"] = (int64_t)lineOf(UO->getBeginLoc());
+      if (UO->isIncrementDecrementOp()) {
+        o["ln"] = (int64_t)lineOf(UO->getBeginLoc());
+        if (E->getType()->isIntegerType()) {
+          o["w"] = (int64_t)Ctx.getTypeSize(E->getType());
+          o["sg"] = E->getType()->isSignedIntegerOrEnumerationType();
+        }
+      }
       std::string m = wholeMacro(E);
       if (!m.empty()) o["mac"] = m;
       return std::move(o);
@@ -296,8 +302,22 @@ struct Extractor {
     if (const auto *BO = dyn_cast<BinaryOperator>(E)) {
       std::string op = BinaryOperator::getOpcodeStr(BO->getOpcode()).str();
       if (BO->isAssignmentOp()) {
-        return json::Object{{"k", "asg"}, {"op", op}, {"l", norm(BO->getLHS(), false, fold)}, {"r", norm(BO->getRHS(), false, fold)},
-                            {"ln", (int64_t)lineOf(BO->getOperatorLoc())}};
+        json::Object a{{"k", "asg"}, {"op", op}, {"l", norm(BO->getLHS(), false, fold)}, {"r", norm(BO->getRHS(), false, fold)},
+                       {"ln", (int64_t)lineOf(BO->getOperatorLoc())}};
+        // compound assignment: the operation is done in the computation type and the result converted to the type of the left side;
+        // both are needed for unsigned wrap-around (size_t left; left -= n)
+        if (const auto *CA = dyn_cast<CompoundAssignOperator>(BO)) {
+          QualType LT = BO->getLHS()->getType(), CT = CA->getComputationResultType();
+          if (LT->isIntegerType()) {
+            a["w"] = (int64_t)Ctx.getTypeSize(LT);
+            a["sg"] = LT->isSignedIntegerOrEnumerationType();
+          }
+          if (!CT.isNull() && CT->isIntegerType()) {
+            a["cw"] = (int64_t)Ctx.getTypeSize(CT);
+            a["csg"] = CT->isSignedIntegerOrEnumerationType();
+          }
+        }
+        return std::move(a);
       }
       json::Object o{{"k", "bin"}, {"op", op}, {"l", norm(BO->getLHS(), false, fold)}, {"r", norm(BO->getRHS(), false, fold)}};
       // result type of arithmetic (not comparison / logical) operators: needed for unsigned wrap-around
